@@ -233,4 +233,12 @@ def _is_f14(v, rec):
     return v.get('clause') == 'coarse.partition_without_loss' and v.get('anchored') is True and v.get('head_lost_only') is True
 
 
-CLASSIFIERS = {'c19_anchored_start_off_anchor': _is_f14}
+def _is_f46b(v, rec):
+    # coarse restricted grid in calendar days whose window starts at a wall-clock time that is ambiguous / missing on a later day of the window (same
+    # mechanism as F46 in C13): pd.date_range raises inside Timegrid.__init__
+    w = v.get('window')
+    return (v.get('clause') == 'restricted.setup_works' and isinstance(w, list) and len(w) == 3 and str(w[0]).endswith('d')
+            and ('AmbiguousTimeError' in str(v.get('error', '')) or 'NonExistentTimeError' in str(v.get('error', ''))))
+
+
+CLASSIFIERS = {'c19_coarse_daily_step_on_ambiguous_wall_clock_time': _is_f46b, 'c19_anchored_start_off_anchor': _is_f14}
